@@ -5,6 +5,7 @@
   (cluster A models it; here it is a parameter).
 -/
 import PdbVerif.Model.Table
+import PdbVerif.Model.MicroSql
 import PdbVerif.Spec.C15
 
 namespace Model
@@ -51,10 +52,12 @@ def derive (roundtrip : Table → Table) (w : World) : WOp → Except Err Obj
             | .error e => .error e
             | .ok tab => .ok { kind := .single, db := { tabs := [tab] } }
       | .many =>
-        -- one table per table of the source, same names
+        -- one table per table of the source, same names; with no table at all (never the case for an object the library built) the
+        -- loop of `many2sql.__call__` does not run and `return new_db` reads an unbound local: UnboundLocalError (this exception
+        -- class has no constructor of its own in `Model.Err`; the generated code names it the same way)
         match o.db.tabs.mapM (fun t => exportRows o.db t.name kw >>= newTable roundtrip t.name) with
         | .error e => .error e
-        | .ok tabs => if tabs.isEmpty then .error .indexError else .ok { kind := .many, db := { tabs := tabs } }
+        | .ok tabs => if tabs.isEmpty then .error (.unmodelled "UnboundLocalError") else .ok { kind := .many, db := { tabs := tabs } }
   | .deriveInterface k =>
     match w[k]? with
     | none => .error .indexError
@@ -72,6 +75,50 @@ def derive (roundtrip : Table → Table) (w : World) : WOp → Except Err Obj
         | some o => exportRows o.db atomName [] >>= newTable roundtrip (manyName ki.2)) with
     | .error e => .error e
     | .ok tabs => if tabs.isEmpty then .error .indexError else .ok { kind := .many, db := { tabs := tabs } }
+
+/-! ### `many2sql([...], tablenames=[...])`: user-given table names -/
+
+/-- the punctuation string of the clean-up loop of `_create_table` (`for c in "!@#…": tablename = tablename.replace(c, '_')`; the
+    translated loop is `GenP._create_table_for_c`, Proofs/GenParseLoop.lean `cleanName_chars`; Proofs/GenManyNamed.lean ties the two) -/
+def tablePunct : Py.Str :=
+  ['!', '@', '#', '$', '%', '^', '&', '*', '(', ')', '[', ']', '{', '}', ';', ':', ',', '.', '/', '<', '>', '?', '\\', '|', '`', '~', '-', '=', '_', '+']
+
+/-- the table name `_create_table` hands to SQLite -/
+def cleanTableName (tn : Py.Str) : Py.Str := tn.map (fun c => if c ∈ tablePunct then '_' else c)
+
+/-- `CREATE TABLE <name>` on the database built so far: the cleaned name must be a plain word (anything else — blanks, a leading digit,
+    a reserved word of SQL — is a syntax error of SQLite and outside the model) and must not exist yet (SQL identifiers compare
+    case-insensitively): sqlite3.OperationalError `table … already exists`; then the rows: no line at all is IndexError (`read_pdb`) -/
+def addNamedTable (roundtrip : Table → Table) (db : Db) (name : Py.Str) (rows : Table) : Except Err Db :=
+  let tn := cleanTableName name
+  if !MicroSql.isName tn then .error (.unmodelled "table name that is not a plain word after the clean-up")
+  else if (findTab db tn).isSome then .error .operational
+  else match newTable roundtrip tn rows with
+    | .error e => .error e
+    | .ok t => .ok { db with tabs := db.tabs ++ [t] }
+
+/-- the structures one after the other: the structure is exported first (`convert_input`), THEN its name is looked up (fewer names
+    than structures: IndexError), then the table is created; surplus names are never looked at -/
+def manyNamedRest (roundtrip : Table → Table) : Db → List Db → List Py.Str → Except Err Db
+  | db, [], _ => .ok db
+  | db, src :: rest, names =>
+    match exportRows src atomName [] with
+    | .error e => .error e
+    | .ok rows =>
+      match names with
+      | [] => .error .indexError
+      | n :: ns =>
+        match addNamedTable roundtrip db n rows with
+        | .error e => .error e
+        | .ok db' => manyNamedRest roundtrip db' rest ns
+
+/-- `many2sql([db₁, db₂, …], tablenames=[n₁, n₂, …])` for database objects `dbᵢ` and names that are `str`s (the TypeErrors of the
+    other shapes are statements of the translated `__init__`): the new object holds one table per structure, in input order, under
+    the names as given (cleaned); no structure at all is IndexError (`pdbfiles[0]`) -/
+def manyNamed (roundtrip : Table → Table) (srcs : List Db) (names : List Py.Str) : Except Err Db :=
+  match srcs with
+  | [] => .error .indexError
+  | _ => manyNamedRest roundtrip { tabs := [] } srcs names
 
 /-- one step of a history: a modification changes object k only; a derivation appends a new object -/
 def wstep (roundtrip : Table → Table) (w : World) (op : WOp) : World × Except Err Unit :=
